@@ -35,7 +35,7 @@ from ..cfg import explore
 from ..rules import node_calls, event_facts, check_take_and_clear, settle_sites
 from ..mutate import mutate, remove_stmts, replace_expr, replace_stmt, parse_stmt, parse_expr
 from ..model import AnalysisError
-from ..x_guardflow import ClassEffects, guard_facts, has, fold_cfg, UNKNOWN, expand_expr, resolve_at, reaching_value, missing_effect
+from ..x_guardflow import ClassEffects, guard_facts, has, fold_cfg, UNKNOWN, expand_expr, resolve_at, reaching_value, missing_effect, edge_facts, as_aug
 from ..x_iostream import read_end_mode
 
 TECHNIQUE = "must-pass-through on the CFG, finite-domain folding of the position predicate, exception-escape fixpoint, paired-update and take-and-clear lints"
@@ -645,7 +645,7 @@ def _branch_end_facts(fi, ef, user: bool):
 def consume(ck):
     fi = ck.func(IO, B + "._consume")
     loc = _params(fi)[0]
-    decs = fi.cfg.stmt_nodes(lambda m: m.kind == "stmt" and isinstance(m.ast, ast.AugAssign) and isinstance(m.ast.op, ast.Sub) and q.dotted(m.ast.target) == "self._read_buffer_size")
+    decs = fi.cfg.stmt_nodes(lambda m: m.kind == "stmt" and isinstance(as_aug(m.ast), ast.AugAssign) and isinstance(as_aug(m.ast).op, ast.Sub) and q.dotted(as_aug(m.ast).target) == "self._read_buffer_size")
     dels = fi.cfg.stmt_nodes(lambda m: m.kind == "stmt" and isinstance(m.ast, ast.Delete) and "self._read_buffer[]" in q.assigned_paths(m.ast))
     ceff = ClassEffects(ck.repo, FAMILY)
     if decs:
@@ -657,7 +657,7 @@ def consume(ck):
     else:
         missing_effect(ck, "C11.consume-pair", fi, ceff, {"self._read_buffer"}, "_consume deletes the consumed bytes from the read buffer", "deletion in _consume")
     for m in decs:
-        ck.ob("C11.consume-pair", fi, m.ast, q.dotted(m.ast.value) == loc, "_read_buffer_size shrinks by exactly loc")
+        ck.ob("C11.consume-pair", fi, m.ast, q.dotted(as_aug(m.ast).value) == loc, "_read_buffer_size shrinks by exactly loc")
     for m in dels:
         t = m.ast.targets[0]
         ok = isinstance(t, ast.Subscript) and isinstance(t.slice, ast.Slice) and t.slice.lower is None and t.slice.step is None and q.dotted(t.slice.upper) == loc
@@ -704,7 +704,7 @@ def consume(ck):
     for rel, cls in FAMILY:
         for f in ck.repo.direct_methods(rel, cls):
             for st in q.walk_body(f.node):
-                if isinstance(st, ast.AugAssign) and isinstance(st.op, ast.Sub) and q.dotted(st.target) == "self._read_buffer_size":
+                if isinstance(as_aug(st), ast.AugAssign) and isinstance(as_aug(st).op, ast.Sub) and q.dotted(as_aug(st).target) == "self._read_buffer_size":
                     n_w += 1
                     ck.ob("C11.consume-only-shrinker", f, st, f is fi, "_read_buffer_size is decreased only by _consume")
                 elif isinstance(st, ast.Delete) and "self._read_buffer[]" in q.assigned_paths(st):
@@ -736,7 +736,7 @@ def fill(ck):
     bufvar = q.dotted(reads[0].ast.value.args[0]) if reads[0].ast.value.args else None
     ck.need(nvar and bufvar, "read_from_fd(buf) result / argument are not local names")
     grows = fi.cfg.stmt_nodes(lambda m: m.kind == "stmt" and isinstance(m.ast, ast.AugAssign) and isinstance(m.ast.op, ast.Add) and q.dotted(m.ast.target) == "self._read_buffer")
-    sizes = fi.cfg.stmt_nodes(lambda m: m.kind == "stmt" and isinstance(m.ast, ast.AugAssign) and isinstance(m.ast.op, ast.Add) and q.dotted(m.ast.target) == "self._read_buffer_size")
+    sizes = fi.cfg.stmt_nodes(lambda m: m.kind == "stmt" and isinstance(as_aug(m.ast), ast.AugAssign) and isinstance(as_aug(m.ast).op, ast.Add) and q.dotted(as_aug(m.ast).target) == "self._read_buffer_size")
     ck.floor("C11.fill-pair", len(grows), 1, "buffer growth statements")
     ck.floor("C11.fill-pair", len(sizes), 1, "size updates")
     gf = guard_facts(fi, eff)
@@ -747,21 +747,30 @@ def fill(ck):
         ck.ob("C11.fill-pair", fi, m.ast, ok, "only the first %s bytes of the chunk (the count read_from_fd returned) are appended to the read buffer" % nvar)
         ck.ob("C11.fill-pair", fi, m.ast, has(gf[m.id], "self._user_read_buffer", False), "the internal buffer grows only when not reading into a caller's buffer")
     for m in sizes:
-        ck.ob("C11.fill-pair", fi, m.ast, q.dotted(m.ast.value) == nvar, "_read_buffer_size grows by the count read_from_fd returned")
+        ck.ob("C11.fill-pair", fi, m.ast, q.dotted(as_aug(m.ast).value) == nvar, "_read_buffer_size grows by the count read_from_fd returned")
     ef = event_facts(fi, {"read": lambda m: m in reads}, {"read": lambda m: False}, cond_facts=False)
     for m in grows + sizes:
         ck.ob("C11.fill-pair", fi, m.ast, ("@read", True) in ef[m.id], "growth follows a completed read_from_fd on every path")
 
     def tr(n, val):
-        a, b = val
+        a, b, mode = val
         if n in grows:
             a = min(a + 1, 2)
         if n in sizes:
             b = min(b + 1, 2)
-        return (a, b)
+        if n.kind == "stmt" and any(q.receiver(c) == "self" and q.call_attr(c) in eff.methods and "self._user_read_buffer" in (eff.writes(q.call_attr(c)) or {"self._user_read_buffer"}) for c in q.calls(n.ast)):
+            mode = None  # a self call that may change the mode
+        return (a, b, mode)
 
-    seen = explore(fi.cfg, (0, 0), tr, lambda t: t == "self._user_read_buffer")
-    states = {(f, v) for f, v in seen.get(fi.cfg.exit.id, ())}
+    def edge_mode(n, kind, val):
+        a, b, mode = val
+        for t, pol in edge_facts(n, kind, gf):
+            if t == "self._user_read_buffer":
+                mode = pol
+        return (a, b, mode)
+
+    seen = explore(fi.cfg, (0, 0, None), tr, lambda t: False, edge_transfer=edge_mode)
+    states = {(frozenset({("self._user_read_buffer", True)}) if mode else frozenset(), (a, b)) for _f, (a, b, mode) in seen.get(fi.cfg.exit.id, ())}
     vals = {v for _f, v in states}
     ck.ob("C11.fill-pair", fi, fi.node, vals <= {(0, 0), (0, 1), (1, 1)} and ((1, 1) in vals), "every append to the buffer is matched by one size update (path states %s)" % sorted(vals), construct="(appends, size updates) per path = %s" % sorted(vals))
     for f, v in sorted(states, key=repr):
